@@ -479,7 +479,15 @@ def t_templates(ctx):
                 red = bytes([0, inner]) + bytes(range(inner))
                 ctx.run({'kind': 'raw', 'script': (bytes([len(red)]) + red).hex()})                    # nested forms
                 ctx.run({'kind': 'raw', 'script': (bytes([n]) + red).hex()})
-        ctx.exhaustive.append('witness-program shape: 20 head opcodes x push length 0..78 x {short, exact, long}; '
+        for b_ in range(256):
+            hh = bytes([b_]) * 20
+            ctx.run({'kind': 'raw', 'script': (b'\xa9\x14' + hh + b'\x87').hex()})                   # every byte value inside the hash (0x0a, 0x0d ...)
+            ctx.run({'kind': 'raw', 'script': (b'\xa9\x14' + bytes(range(20)) + b'\x87' + bytes([b_])).hex()})   # and one trailing byte of every value
+            ctx.run({'kind': 'raw', 'script': (bytes([b_]) + b'\xa9\x14' + bytes(range(20)) + b'\x87').hex()})
+            ctx.run({'kind': 'raw', 'script': (b'\x00\x14' + hh + bytes([b_])).hex()})
+            ctx.run({'kind': 'raw', 'script': (b'\x00\x14' + hh).hex()})
+            ctx.run({'kind': 'raw', 'script': (b'\x00\x20' + hh + hh[:12]).hex()})
+        ctx.exhaustive.append('witness-program shape: 20 head opcodes x push length 0..78 x {short, exact, long}; P2SH / P2WPKH / P2WSH templates with every byte value inside and behind; '
                               'HASH160 <n bytes> EQUAL for n 0..78; nested witness forms with every outer/inner length')
 
 
